@@ -157,6 +157,7 @@ package oidc
 //@   invariant members: forall m int :: 0 <= m && m < len(validKeys) ==> exists i int :: 0 <= i && i <= rangeindex && keys[i] == validKeys[m]
 //@   invariant only-candidates: forall m int :: 0 <= m && m < len(validKeys) ==> kidCandidate(validKeys[m], keyID, use, expectedAlg) && !kidExact(validKeys[m], keyID, use, expectedAlg)
 //@   invariant no-exact-yet: forall i int :: 0 <= i && i <= rangeindex ==> !kidExact(keys[i], keyID, use, expectedAlg)
+//@   invariant own-storage: cap(validKeys) == 0 || fresh(validKeys)
 //@   invariant none-so-far: len(validKeys) == 0 ==> forall i int :: 0 <= i && i <= rangeindex ==> !kidCandidate(keys[i], keyID, use, expectedAlg)
 //@   invariant single-so-far: len(validKeys) == 1 ==> forall i int :: 0 <= i && i <= rangeindex && kidCandidate(keys[i], keyID, use, expectedAlg) ==> keys[i] == validKeys[0]
 //@ func oidc.FindMatchingKey
